@@ -667,6 +667,71 @@ func (ev *evaluator) call(x ECall) *Val {
 		a := ev.eval(x.Args[0])
 		r := ev.asRef(a)
 		return boolVal(or(eq(r, "0"), "(> (obj_root "+r+") "+ev.vf.entryFrontier+")"))
+	case "fieldwise":
+		// fieldwise(dst, src, "Skipped,Fields"): every field of src's struct type that is not listed as skipped has a
+		// field of the same name and type in dst, and the two are equal. A field of src that is neither comparable
+		// nor listed is a contract error: the mirror is not covered for all fields.
+		if len(x.Args) < 2 {
+			return ev.fail("fieldwise(dst, src [, \"skipped,fields\"])")
+		}
+		skip := map[string]bool{}
+		if len(x.Args) == 3 {
+			sk, ok := x.Args[2].(EStr)
+			if !ok {
+				return ev.fail("fieldwise: third argument must be a string of field names")
+			}
+			for _, f := range strings.Split(sk.V, ",") {
+				if f = strings.TrimSpace(f); f != "" {
+					skip[f] = true
+				}
+			}
+		}
+		dv, sv := ev.eval(x.Args[0]), ev.eval(x.Args[1])
+		if dv == nil || sv == nil || dv.T == nil || sv.T == nil {
+			return ev.fail("fieldwise: untyped operand")
+		}
+		stOf := func(t types.Type) *types.Struct {
+			if p, ok := t.Underlying().(*types.Pointer); ok {
+				t = p.Elem()
+			}
+			st, _ := t.Underlying().(*types.Struct)
+			return st
+		}
+		ds, ss := stOf(dv.T), stOf(sv.T)
+		if ds == nil || ss == nil {
+			return ev.fail("fieldwise: operands must be structs or pointers to structs")
+		}
+		dfields := map[string]types.Type{}
+		for i := 0; i < ds.NumFields(); i++ {
+			dfields[ds.Field(i).Name()] = ds.Field(i).Type()
+		}
+		used := map[string]bool{}
+		var cs []string
+		for i := 0; i < ss.NumFields(); i++ {
+			f := ss.Field(i)
+			if skip[f.Name()] {
+				used[f.Name()] = true
+				continue
+			}
+			dt, ok := dfields[f.Name()]
+			if !ok {
+				return ev.fail("fieldwise: field %s of the source has no counterpart in the destination and is not listed as skipped", f.Name())
+			}
+			if !types.Identical(dt, f.Type()) || sortOf(f.Type()) == "" {
+				return ev.fail("fieldwise: field %s cannot be compared directly (type %s vs %s) and is not listed as skipped", f.Name(), f.Type(), dt)
+			}
+			c := ev.eval(EBinary{Op: "==", X: ESel{X: x.Args[0], Name: f.Name()}, Y: ESel{X: x.Args[1], Name: f.Name()}})
+			if c == nil || c.S != SBool {
+				return ev.fail("fieldwise: cannot compare field %s", f.Name())
+			}
+			cs = append(cs, c.Tm)
+		}
+		for n := range skip {
+			if !used[n] {
+				return ev.fail("fieldwise: skipped field %s does not exist in the source", n)
+			}
+		}
+		return boolVal(and(cs...))
 	case "isnil":
 		a := ev.eval(x.Args[0])
 		return boolVal(eq(a.Tm, zeroOfSort(a.S)))
